@@ -396,6 +396,12 @@ class Bus {
       return;
     }
     emit(t, echo, 'H', false, b);
+    if (b == 0xAA && echo == 0xAA) {
+      // a SYN generated by the host ends whatever was going on, like the SYN of any other generator
+      hostOwnsBus = false;
+      tr = Track();
+      if (enhanced && enhArbAddr != 0xAA) enhArbPending = true;
+    }
   }
 
   /** called from ppoll: schedule the next foreign byte(s) when nothing is on its way */
@@ -442,22 +448,29 @@ class Bus {
       // an arrival burst never spans a silent gap (that would hide the gap from the host)
       if (taken && (it.kind == Item::GAP || pendingGap || (it.kind != Item::SYN && itemPos == 0 && it.gap > 0)
           || (it.kind != Item::SYN && itemPos < it.gaps.size() && it.gaps[itemPos] > 0) || (it.kind == Item::SYN && it.gap > 10 * MS))) break;
+      if (it.kind == Item::GAP) { taken++; scriptNotBefore = std::max(lastByteTime, g.now) + it.gap; script.pop_front(); pendingGap = true; continue; }
+      if (it.kind != Item::SYN && it.bytes.empty()) { script.pop_front(); itemPos = 0; continue; }
+      // when is the next scripted byte due? fixed when it is first considered; nothing is put on the wire before its time has
+      // come within the host's current wait (the host may act on a timeout first, e.g. generate a SYN)
+      if (itemDue == 0) {
+        int64_t base = std::max(std::max(lastByteTime, g.now), scriptNotBefore - SYM);
+        if (it.kind == Item::SYN) itemDue = base + (it.gap ? it.gap : SYM);
+        else itemDue = base + SYM + (itemPos < it.gaps.size() ? it.gaps[itemPos] : 0) + (itemPos == 0 ? it.gap : 0);
+      }
+      int64_t t = std::max(itemDue, lastByteTime + SYM);
+      if (t > horizon) break;
+      itemDue = 0; scriptNotBefore = 0;
       taken++;
-      if (it.kind == Item::GAP) { lastByteTime = std::max(lastByteTime, g.now) + it.gap; script.pop_front(); pendingGap = true; continue; }
       if (it.kind == Item::SYN) {
-        int64_t t = std::max(lastByteTime, g.now) + (it.gap ? it.gap : SYM);
         script.pop_front();
         emitSyn(t);
         pendingGap = false;
         break;      // after a SYN the host may arbitrate: let it react before anything else is scheduled
       }
-      if (it.bytes.empty()) { script.pop_front(); itemPos = 0; continue; }
       size_t k = itemPos;
       uint8_t b = it.bytes[k];
       char org = it.kind == Item::TELEGRAM ? (k < it.origins.size() ? it.origins[k] : 'F') : 'N';
-      int64_t extra = k < it.gaps.size() ? it.gaps[k] : 0;
       pendingGap = false;
-      int64_t t = std::max(lastByteTime, g.now) + SYM + extra + (k == 0 ? it.gap : 0);
       emit(t, b, org);
       itemPos++;
       if (itemPos >= it.bytes.size()) {
@@ -477,6 +490,8 @@ class Bus {
 
   bool pendingGap = false;
   size_t itemPos = 0;
+  int64_t itemDue = 0;          // due time of the next scripted byte (0: not determined yet)
+  int64_t scriptNotBefore = 0;  // end of a scripted silent gap
   bool enhArbPending = false;
   bool foreignLostArb = false;
 
